@@ -204,7 +204,13 @@ class Gen:
     def comment(self):
         rng = self.rng
         d = rng.choice(['#', '"', "'"])
-        return f'{d} some words here {d}'
+        if rng.random() < .5: return f'{d} some words here {d}'
+        # a comment ends at the next occurrence of the delimiter that opened it: the other two delimiters, instruction names
+        # and values inside it are just text
+        others = [x for x in ['#', '"', "'"] if x != d]
+        words = [rng.choice(['was:', 'push', 'd1', 'true', 'false', 'x00', 'verify', 'OP_POP0', 'don\'t' if d != "'" else 'dont', rng.choice(others), rng.choice(others)])
+                 for _ in range(rng.randrange(1, 7))]
+        return f'{d} ' + ' '.join(words) + f' {d}'
 
     def render(self, prog, depth=0, in_def=False) -> list:
         out = []
